@@ -11,7 +11,7 @@ VERIF = os.path.dirname(os.path.dirname(os.path.abspath(__file__)))
 KSRC = os.path.join(VERIF, 'kani')
 KWORK = os.path.join(VERIF, '.work', 'kani')
 
-HARNESS_RE = re.compile(r'^\s*(?:\w+_harness|harness)!\(\s*(\w+)\s*,', re.M)
+HARNESS_RE = re.compile(r'^(?:\w+_harness|harness)!\(\s*(\w+)\s*,', re.M)
 PLAIN_RE = re.compile(r'#\[cfg_attr\(kani, kani::proof\)\][^\n]*\n(?:\s*#\[[^\n]*\n)*\s*pub fn (\w+)\s*\(', re.M)
 
 
